@@ -1356,9 +1356,9 @@ def build_tasks(run, cli):
     add("floats-fixed", None, 1, "release")
     add("decs-fixed", None)
     add("decs-fixed", None, 1, "release")
-    for i in range(run.size(12, 300)):
+    for i in range(run.size(12, 200)):
         add("floats", 1000, i, prof(i), 1000)
-    for i in range(run.size(8, 150)):
+    for i in range(run.size(8, 100)):
         add("decs", 1000, i, prof(i, 4), 1000)
     if T:
         total = len(gen.small_trees(TREE_ATOMS, TREE_KEYS[:4], 4))
@@ -1368,12 +1368,12 @@ def build_tasks(run, cli):
     for j, (lo, hi) in enumerate(chunks(total3, 1500)):
         add("trees", (3, lo, hi), 0, prof(j, 2))
     add("keys", run.size(2500, 9000))
-    for i in range(run.size(24, 400)):
+    for i in range(run.size(24, 300)):
         depth, width = [(2, 3), (3, 4), (4, 3), (1, 6)][i % 4]
         add("rand", (1000, depth, width), i, prof(i, 4))
     add("rfc-fixed", None, 0, "verif", 200)
     add("rfc-fixed", None, 1, "release", 200)
-    for i in range(run.size(24, 400)):
+    for i in range(run.size(24, 300)):
         add("rfc", 1500, i, prof(i, 4), 500)
     if T:
         for lo, hi in chunks(0x10000, 4096):
